@@ -140,6 +140,10 @@ func genConc(prop string, seed uint64, run int, p concProfile, av avoid) *Case {
 		for i := 0; i < nStable; i++ {
 			op := Op{Kind: "at", Target: Target{Mode: "abs", K: int(pf.Survivors[i])}}
 			for _, c := range vc {
+				// some slots stay empty: merges into a never-stored slot start from the zero value
+				if p.mergeKinds && r.Chance(0.3) {
+					continue
+				}
 				op.Writes = append(op.Writes, Write{Col: c.Name, Val: g.genVal(c)})
 			}
 			setup.Ops = append(setup.Ops, op)
